@@ -139,7 +139,8 @@ def case(draw):
     return {"n": n, "bonds": bonds, "types": types, "kinds": kinds, "exclude": exclude,
             "rename": list(draw(hperm.permutations(range(n)))),
             "shuffle_seed": draw(hperm.integers(0, 10 ** 6)),
-            "rules": draw(st.sampled_from([None, None, "azido", "resonant"]))}
+            "rules": draw(st.sampled_from([None, None, "azido", "resonant"])),
+            "excl_form": draw(st.sampled_from(["set", "set", "frozenset"]))}
 
 
 RULES = {None: None, "azido": [({"N_1"}, 2), ({"N_1", "N_2"}, 2)], "resonant": [({"C_R", "O_2"}, 1.5), ({"C_R", "N_R"}, 1.5)]}
@@ -219,7 +220,8 @@ def typed_terms(c, n, bonds, angles, dihedrals, types, exclude, rules, reuse=Non
     a = make_atoms(n, bonds, angles, dihedrals) if reuse is None else reuse
     if reuse is not None:
         a.bonds, a.angles, a.dihedrals = np.array(bonds), np.array(angles).reshape(-1, 3), np.array(dihedrals).reshape(-1, 4)
-    excl = None if exclude is None else set(exclude)
+    # the exclusion set is passed as a set or as a frozenset (an immutable set is the natural form for a fixed selection)
+    excl = None if exclude is None else (frozenset(exclude) if c.get("excl_form") == "frozenset" else set(exclude))
     try:
         with silenced():
             U.assign_bond_types(a, types, bond_order_rules=rules, exclude=excl)
@@ -407,6 +409,8 @@ def oracle(c, stats):
     stats.count("rings:%s" % ("yes" if any(k.startswith(("ring", "fused", "spiro", "closure")) for k in c["kinds"]) else "no"))
     stats.count("ring4:%s" % any(k in ("ring4", "fused4", "spiro4") for k in c["kinds"]))
     stats.count("exclude:%s" % ("none" if c["exclude"] is None else len(c["exclude"])))
+    if c["exclude"] is not None:
+        stats.count("exclude-passed-as:%s" % c.get("excl_form", "set"))
     stats.count("M-values:%s" % ",".join(str(m) for m in sorted(set(Mcount.values()))[:4]))
     stats.count("dihedrals:%s" % ("0" if not want_dihedrals else "1-9" if len(want_dihedrals) < 10 else "10+"))
     # opposite-direction listing of equal sequences
